@@ -106,6 +106,11 @@ def run_table(case, res):
     kw = dict(test_transmission=lambda u, v, tag: succ[(u, v)], args=('x',), initial_infecteds=list(I0), tmin=tmin, tmax=tmax, return_full_data=case['full'])
     if R0:
         kw['initial_recovereds'] = list(R0)
+        if len(R0) == 1 and case['seed'] % 2:
+            kw['initial_recovereds'] = R0[0]        # documented 'as for initial_infecteds': a single node (whatever its label type)
+            bump(res, 'single_node_initial_recovereds')
+    if len(I0) == 1 and case['seed'] % 5 < 2:
+        kw['initial_infecteds'] = I0[0]
     if stay:
         kw['test_recovery'] = test_recovery
     try:
